@@ -417,6 +417,8 @@ impl BufferedDatabaseWriter {
                             Some(query) => {
                                 query_buffer_length += 1;
                                 query_buffer.push(query);
+                                #[cfg(feature = "verif")]
+                                let _ = crate::verif_hooks::fault::hit("writer.enqueued");
                             },
                             None => break,
                         }
@@ -457,6 +459,8 @@ impl BufferedDatabaseWriter {
         thread::spawn(move || {
             while let Some(mut buffer) = receive_buffer.blocking_recv() {
                 let result = Self::process_batch_write(&mut buffer, &conn);
+                #[cfg(feature = "verif")]
+                let _ = crate::verif_hooks::fault::hit("batch.before_ack");
                 match result {
                     Ok(_) => {
                         for msg in buffer {
@@ -607,8 +611,14 @@ impl BufferedDatabaseWriter {
         let mut daily_log = DailyMutations::default();
         let mut optimize = false; //flag to run the optimize task outside a transaction
 
+        #[cfg(feature = "verif")]
+        if crate::verif_hooks::fault::hit("batch.before_begin") {
+            return Err(crate::verif_hooks::fault::error("batch.before_begin"));
+        }
         conn.execute("BEGIN TRANSACTION", [])?;
         for query in buffer {
+            #[cfg(feature = "verif")]
+            let _ = crate::verif_hooks::fault::hit("batch.group.before");
             match query {
                 WriteMessage::Deletion(query, _) => {
                     if let Err(e) = query.delete(conn) {
@@ -702,10 +712,22 @@ impl BufferedDatabaseWriter {
                 }
                 WriteMessage::Optimize => optimize = true,
             }
+            #[cfg(feature = "verif")]
+            let _ = crate::verif_hooks::fault::hit("batch.group.after");
         }
         //at the end of the batch, update the daily log with all room dates that needs to be recomputed
+        #[cfg(feature = "verif")]
+        if crate::verif_hooks::fault::hit("batch.before_marks") {
+            return Err(crate::verif_hooks::fault::error("batch.before_marks"));
+        }
         daily_log.write(conn)?;
+        #[cfg(feature = "verif")]
+        if crate::verif_hooks::fault::hit("batch.before_commit") {
+            return Err(crate::verif_hooks::fault::error("batch.before_commit"));
+        }
         conn.execute("COMMIT", [])?;
+        #[cfg(feature = "verif")]
+        let _ = crate::verif_hooks::fault::hit("batch.after_commit");
 
         // run the PRAGMA optimize; outside the transaction
         if optimize {
@@ -722,6 +744,15 @@ impl BufferedDatabaseWriter {
         }
 
         Ok(())
+    }
+
+    /// verification hook: calls the private `process_batch_write` on a connection owned by the caller
+    #[cfg(feature = "verif")]
+    pub fn verif_process_batch_write(
+        buffer: &mut Vec<WriteMessage>,
+        conn: &Connection,
+    ) -> std::result::Result<(), rusqlite::Error> {
+        Self::process_batch_write(buffer, conn)
     }
 
     ///
